@@ -101,6 +101,7 @@ pub mod c06;
 pub mod c14;
 pub mod c14_raise;
 pub mod c13;
+pub mod c13x;
 pub mod c17;
 pub mod instr_io;
 pub mod files;
